@@ -105,6 +105,39 @@ def t_lose_wlock_at_term(n):
     return n
 
 
+class _SlowReleaseLock:
+    """the result queue's write lock of THIS worker, released half a second late: stands for a worker
+    that is descheduled between writing its last message and releasing the lock (machine under load)"""
+    def __init__(self, lock):
+        self._lock = lock
+
+    def acquire(self, *a, **kw):
+        return self._lock.acquire(*a, **kw)
+
+    def release(self):
+        time.sleep(0.5)
+        return self._lock.release()
+
+    def __enter__(self):
+        return self._lock.__enter__()
+
+    def __exit__(self, *exc):
+        time.sleep(0.5)
+        return self._lock.__exit__(*exc)
+
+
+def t_term_self_slow_release(sig):
+    """the task raises the termination signal on its own process (as t_kill_self), in a worker whose
+    release of the result queue's write lock is slow: the parent's answer to the DEATH message must not
+    find the exiting worker holding that lock"""
+    import gc
+    import billiard.pool as bp
+    w = [o for o in gc.get_objects() if isinstance(o, bp.Worker)][0]
+    w.outq._wlock = _SlowReleaseLock(w.outq._wlock)
+    os.kill(os.getpid(), sig)
+    time.sleep(30)
+
+
 def alive(pid):
     try:
         os.kill(pid, 0)
@@ -288,7 +321,7 @@ def run_one(spec):
     elif kind == 'worker_lost':
         pool = bp.Pool(2, lost_worker_timeout=1, threads=True)
         other = pool.apply_async(t_sleep, (1.5,))
-        r = pool.apply_async(t_kill_self, (spec.get('sig', 9),))
+        r = pool.apply_async(t_term_self_slow_release if spec.get('slow_release') else t_kill_self, (spec.get('sig', 9),))
         t1 = time.time()
         res['outcome'] = outcome(r, wait=8)
         res['lost_after_s'] = round(time.time() - t1, 2)
